@@ -103,12 +103,25 @@ class Ctx:
         return old != text
 
     # ---------------------------------------------------------------- proof
-    def lean_files(self):
-        res = []
-        for d in ('SpyneModel', 'Proofs', 'Props'):
-            for root, _, files in os.walk(os.path.join(LEAN, d)):
-                res += [os.path.join(root, f) for f in files if f.endswith('.lean')]
-        return sorted(res)
+    def lean_files(self, roots=None):
+        """the project files in the import closure of `roots` (module names); all files if None"""
+        if roots is None:
+            res = []
+            for d in ('SpyneModel', 'Proofs', 'Props'):
+                for root, _, files in os.walk(os.path.join(LEAN, d)):
+                    res += [os.path.join(root, f) for f in files if f.endswith('.lean')]
+            return sorted(res)
+        seen, todo = set(), list(roots)
+        while todo:
+            m = todo.pop()
+            path = os.path.join(LEAN, m.replace('.', '/') + '.lean')
+            if m in seen or not os.path.exists(path):
+                continue
+            seen.add(m)
+            for imp in re.findall(r'^\s*import\s+([A-Za-z0-9_\.]+)', open(path).read(), re.M):
+                if imp.split('.')[0] in ('SpyneModel', 'Proofs', 'Props', 'Driver'):
+                    todo.append(imp)
+        return sorted(os.path.join(LEAN, m.replace('.', '/') + '.lean') for m in seen)
 
     def prove(self, extra_targets=()):
         """lake build Props.Cxx, audit axioms of every theorem in Props/Cxx.lean."""
@@ -130,7 +143,7 @@ class Ctx:
         self.proof['theorems'] = full
         self.proof['obligations'] = len(full)
         # forbidden tokens anywhere in the model/proof sources
-        for f in self.lean_files():
+        for f in self.lean_files(mods + ['Driver.' + prop]):
             body = strip_lean_comments(open(f).read())
             m = FORBIDDEN.search(body)
             if m:
